@@ -2,6 +2,7 @@
 #![allow(dead_code)]
 mod util;
 mod c04;
+mod c07;
 mod c09;
 mod c10;
 mod c14;
@@ -22,6 +23,7 @@ fn main() {
     let args = util::Args::parse(&argv[1..]);
     match argv[0].as_str() {
         "c04" => c04::main(&args),
+        "c07" => c07::main(&args),
         "c09" => c09::main(&args),
         "c10" => c10::main(&args),
         "c14" => c14::main(&args),
